@@ -66,8 +66,50 @@ MIRRORED = [('mitxgraders/baseclasses.py', 'AbstractGrader.__call__'),
             ('mitxgraders/formulagrader/intervalgrader.py', 'IntervalGrader.grade_bracket'),
             ('mitxgraders/formulagrader/integralgrader.py', 'SummationGraderBase.check'),
             ('mitxgraders/formulagrader/integralgrader.py', 'SummationGraderBase.raw_check')]
-REFUTED = ['C01_formula_leaf_refuted', 'C01_call_refuted']
 FINDING_ID = 'zero-credit-answer-keeps-partial-ok'
+
+
+def consolidate_recomputes_ok():
+    """Which version of MathMixin.consolidate_results is in the tree under test: does the branch that returns a comparer
+    result re-derive result['ok'] from result['grade_decimal'] first?  (False for the code as found: finding C01.)
+    Read off the source with `ast` on every run; the flag becomes the model's o_recompute, so the model follows a repaired
+    /repo.  Anything else about the function is covered by the correspondence, not by this flag."""
+    import ast
+    try:
+        tree = ast.parse(core.repo_source('mitxgraders/helpers/math_helpers.py'))
+    except (OSError, SyntaxError):
+        return False
+    fn = core.find_def(tree, 'MathMixin.consolidate_results')
+    if fn is None:
+        return False
+
+    def is_recompute(st):
+        if not (isinstance(st, ast.Assign) and len(st.targets) == 1):
+            return False
+        t, v = st.targets[0], st.value
+        ok_target = (isinstance(t, ast.Subscript) and isinstance(t.value, ast.Name) and t.value.id == 'result'
+                     and isinstance(t.slice, ast.Constant) and t.slice.value == 'ok')
+        if not ok_target or not isinstance(v, ast.Call) or len(v.args) != 1:
+            return False
+        f, a = v.func, v.args[0]
+        fname = f.attr if isinstance(f, ast.Attribute) else (f.id if isinstance(f, ast.Name) else None)
+        arg_ok = (isinstance(a, ast.Subscript) and isinstance(a.value, ast.Name) and a.value.id == 'result'
+                  and isinstance(a.slice, ast.Constant) and a.slice.value == 'grade_decimal')
+        return fname == 'grade_decimal_to_ok' and arg_ok
+
+    for node in ast.walk(fn):
+        if isinstance(node, ast.If):
+            body = node.body
+            for i, st in enumerate(body):
+                if isinstance(st, ast.Return) and isinstance(st.value, ast.Name) and st.value.id == 'result':
+                    if any(is_recompute(x) for x in body[:i]):
+                        return True
+    return False
+
+
+RECOMPUTE = consolidate_recomputes_ok()
+# the refuted clause stands exactly as long as the code under test is the unrepaired version
+REFUTED = [] if RECOMPUTE else ['C01_formula_leaf_refuted', 'C01_call_refuted']
 
 TRUSTED = [
     'correspondence harness harness/props/c01.py + c01_rec.py (run-time wrappers recording leaf comparisons, Munkres output, '
@@ -170,8 +212,8 @@ def case_term(case, run):
     credit = credit_value(g, case['attempt'])
     leafs, perms, bests = R.oracle_tables(run.rec)
     obs = 'None' if run.status != 'ret' else '(Some %s)' % R.edx_term(run.out)
-    return '(mkCase %s %s %s %s %s %s %s %s %s %s %s %s)' % (
-        boollit(g.config['debug']), optlit(credit, qlit), boollit(g.config['attempt_based_credit_msg']),
+    return '(mkCase %s %s %s %s %s %s %s %s %s %s %s %s %s)' % (
+        boollit(RECOMPUTE), boollit(g.config['debug']), optlit(credit, qlit), boollit(g.config['attempt_based_credit_msg']),
         R.grader_term(g), R.ans_term(g, g.config['answers']), R.input_term(case['input']),
         optlit(case['attempt'], zlit), R.strlit(run.log), leafs, perms, bests, obs)
 
@@ -416,8 +458,8 @@ def gen_cases(rng, counts, rounded_share=0.12):
     return cases
 
 
-QUICK = [('string', 160), ('table', 80), ('formula', 150), ('numerical', 60), ('matrix', 140), ('slist', 300),
-         ('interval', 140), ('list', 380), ('sum', 50)]
+QUICK = [('string', 110), ('table', 60), ('formula', 100), ('numerical', 40), ('matrix', 100), ('slist', 210),
+         ('interval', 100), ('list', 270), ('sum', 35)]
 THOROUGH = [('string', 1500), ('table', 800), ('formula', 1200), ('numerical', 500), ('matrix', 1200), ('slist', 3000),
             ('interval', 1200), ('list', 4000), ('sum', 300)]
 
@@ -518,7 +560,13 @@ def run(ctx):
     bad_ws = whitespace_table_ok()
     if bad_ws:
         res.disagreements.append({'kind': 'whitespace-table', 'code_points': bad_ws[:10]})
-    counts = THOROUGH if (ctx['tier'] == 'thorough' or ctx['escalate']) else QUICK
+    if ctx['tier'] == 'thorough':
+        counts = THOROUGH
+    elif ctx['escalate']:          # a mirrored function changed / an obligation broke: three times the quick volume
+        counts = [(k, 3 * n) for k, n in QUICK]
+    else:
+        counts = QUICK
+    res.distribution_extra = {'consolidate_results_recomputes_ok': RECOMPUTE}
     cases = [dict(c, kind='corpus') for c in CORPUS] + gen_cases(rng, counts)
     terms, metas = [], []
     for i, case in enumerate(cases):
@@ -528,6 +576,7 @@ def run(ctx):
             terms.append(t)
             metas.append((case, seed))
     res.distribution = {k: v for k, v in stats.items()}
+    res.distribution.update(res.distribution_extra)
     res.distribution['ok_hist'] = dict(sorted(stats['ok_hist'].items(), key=lambda kv: -kv[1])[:12])
     if stats['sum_multi_box_short_form']:
         res.notes.append('observation (not raised): SumGrader returned the single-input form for %d multi-box submissions'
